@@ -7,6 +7,8 @@ def key_fn(case, obs, verdict):
     v = v[4:] if v.startswith("BAD:") else v
     if v.startswith("outcome:warm-up"):
         return "Gun.WarmUp:" + v
+    if v.startswith("outcome:shots-beyond"):
+        return "ScanAmmoDecoder.Decode:" + v
     if v.startswith("outcome:aggregator-"):
         return "Aggregator.Run:" + v
     if v.startswith("outcome:factory-"):
@@ -31,9 +33,10 @@ def run(ctx):
               "distinct = distinct case lines (fault plan x cancel plan x pools)"),
         key_fn=key_fn, what_fn=what_fn,
         translators=[("runasync", "RunAsyncGen.v"), ("grpcwarmup", "GrpcWarmUpGen.v"), ("gofn-runinst", "GoFnRunInstGen.v"),
-                     ("encaggr", "EncAggrGen.v"), ("plugconv", "PlugConvGen.v")],
+                     ("encaggr", "EncAggrGen.v"), ("plugconv", "PlugConvGen.v"),
+                     ("scandecode", "ScanDecodeGen.v")],
         bridge_files=["Gen/RunAsync_bridge.v", "Gen/GrpcWarmUp_bridge.v", "Gen/GoFnRunInst_bridge.v", "Gen/EncAggr_bridge.v",
-                      "Gen/PlugConv_bridge.v"],
+                      "Gen/PlugConv_bridge.v", "Gen/ScanDecode_bridge.v"],
         trusted=[
             "extraction: ExtrOcamlBasic only; OCaml driver ocaml/C05/main.ml (history tokens -> model events) + ocaml/common/conv.ml",
             "correspondence harness harness/cmd/hC05: real engine.Engine with fault-plan mocks; the receive order of the await loop, "
